@@ -818,6 +818,9 @@ func (it *interp) doSelect(st *state, fr *frame, in *ssa.Select) {
 				elems = append(elems, &Expr{Op: "recv", Name: it.siteID(in) + fmt.Sprint(i), Args: []AV{it.eval(ns, nfr, sst.Chan)}})
 			}
 		}
+		for _, sst := range in.States {
+			ev.Args = append(ev.Args, it.eval(ns, nfr, sst.Chan))
+		}
 		if ci >= 0 {
 			sst := in.States[ci]
 			ev.Dir = sst.Dir
